@@ -37,6 +37,23 @@ _BASES = [
     b'HTTP/1.0 200 OK\r\nContent-Encoding: deflate\r\n\r\n' + __import__('zlib').compress(b'hello'),
     b'HTTP/1.0 200 OK\r\nContent-Encoding: gzip\r\n\r\n' + __import__('gzip').compress(b'hello', mtime=0),
 ]
+_LONG = b'x' * 70000
+_LONG_CASES = [
+    b'HTTP/1.1 200 OK\r\nX-Long: ' + _LONG + b'\r\nContent-Length: 0\r\n\r\n',
+    b'HTTP/1.1 200 OK\r\nTransfer-Encoding: chunked\r\n\r\n3;ext=' + _LONG + b'\r\nabc\r\n0\r\n\r\n',
+    b'HTTP/1.1 200 OK\r\nTransfer-Encoding: chunked\r\n\r\n3\r\nabc' + _LONG + b'\r\n0\r\n\r\n',
+    b'HTTP/1.1 200 OK\r\nTransfer-Encoding: chunked\r\n\r\n3\r\nabc\r\n0\r\nT: ' + _LONG + b'\r\n\r\n',
+    b'HTTP/1.1 200 ' + _LONG + b'\r\n\r\n',
+]
+
+
+def _http_long_lines(case_i):
+    """A line longer than the 64 KiB stream-reader limit anywhere in a response (header field, chunk-size line, chunk terminator, trailer)."""
+    wire = pick(_LONG_CASES, case_i)
+    with nosym():
+        return _http_read(wire)
+
+
 _BYTES = [0x00, 0x0a, 0x0d, 0x20, 0x3a, 0x3b, 0x80, 0xff, 0x2d, 0x67, 0x2b, 0x31, 0x09, 0x25]
 
 
@@ -85,7 +102,7 @@ def _http_free(data, prefix_i):
 
 # ---------------------------------------------------------------- FTP control
 _REPLY_LINES = ['220 ok', '220-multi', ' 220 indented', '22', '2x0 bad', '', '\x00\xff', '999999999999 big', '227 (1,2,3,4,5,6)', '227 (1,2,3,4,5)',
-                '227 (999,999,999,999,999,999)', '213 12', '213 x', '213 ' + '9' * 400, '331 pw', '230 in', '-', '٢٢٠ arabic', '150 go', '226 done', '2200']
+                '227 (999,999,999,999,999,999)', '200 ok\r200 again', '200-a\r\r226 b', '220 ' + 'y' * 70000, '213 12', '213 x', '213 ' + '9' * 400, '331 pw', '230 in', '-', '٢٢٠ arabic', '150 go', '226 done', '2200']
 
 
 def _ftp_control(l1, l2, l3, n, op, eof):
@@ -162,7 +179,7 @@ def _ftp_listing(t1, t2, t3, t4, ntok, t5, t6, nlines, mlsd):
 
 
 # ---------------------------------------------------------------- FTP processor: errors while probing the parent directory
-def _ftp_processor_faults(where_i, err_i, url_i, lt):
+def _ftp_processor_faults(where_i, err_i, url_i, lt, preserve=False, nth=1):
     from wpull.pipeline.item import LinkType
     from wpull.protocol.ftp.ls.listing import FileEntry
     from wpull.protocol.ftp.util import FTPServerError
@@ -171,8 +188,13 @@ def _ftp_processor_faults(where_i, err_i, url_i, lt):
     link_type = [None, LinkType.file, LinkType.directory][lt]
     count = [0]
 
+    seen = [0]
+
     def fault(w, request):
         if w == where:
+            seen[0] += 1
+            if seen[0] != nth:
+                return
             count[0] += 1
             err = pick(['neterr', 'proto', 'ssl', 'ftpserver', 'refused'], err_i)
             if err == 'ftpserver':
@@ -180,7 +202,7 @@ def _ftp_processor_faults(where_i, err_i, url_i, lt):
             raise stubs.ERRORS[err]()
     with nosym():
         client = stubs.StubFTPClient(files=[FileEntry('file', 'file'), FileEntry('sub', 'dir')], fault=fault)
-        env = stubs.build_ftp(client, filters=[F.SchemeFilter()])
+        env = stubs.build_ftp(client, filters=[F.SchemeFilter()], preserve_permissions=preserve)
         env.table.add(url)
         rec = env.table.check_out(Status.todo)
         rec.link_type = link_type
@@ -208,7 +230,7 @@ def _documents(doc_i, kind, enc_i):
     clear_url_memo()
     doc = pick(_DOCS, doc_i)
     kind = pick(['robots', 'css', 'js', 'demux'], kind)
-    enc = pick([None, 'utf-8', 'latin-1', 'ascii', 'utf-16', 'bogus-codec'], enc_i)
+    enc = pick([None, 'utf-8', 'latin-1', 'ascii', 'utf-16', 'bogus-codec', 'hex', 'rot13', 'zlib', 'base64', 'idna', 'unicode_escape'], enc_i)
     with nosym():
         req = Request('http://h.example/a/doc.css' if kind != 'js' else 'http://h.example/a/doc.js')
         resp = Response(200, 'OK')
@@ -264,6 +286,11 @@ HARNESSES = [
       doc='six valid responses (Content-Length, chunked+extension+trailer, gzip redirect, folded header, deflate and gzip bodies read until close) with one byte replaced / inserted at '
           'EVERY position (10-14 odd byte values), truncated at every position, or a line dropped: Stream.read_response + read_body succeed or '
           'raise one of the four per-URL error kinds'),
+    H('http_long_lines', '_http_long_lines', 'case_i: int', pre=['0 <= case_i < %d' % len(_LONG_CASES)], timeout={'quick': 120, 'thorough': 300},
+      samples=[(0,), (3,)], need=['remote-error'],
+      funcs=['wpull/protocol/http/chunked.py:ChunkedTransferReader.read_chunk_body', 'wpull/protocol/http/chunked.py:ChunkedTransferReader.read_trailer'],
+      doc='a line longer than the 64 KiB stream-reader limit (readline raises ValueError) in the status line, a header field, a chunk-size '
+          'line, a chunk terminator or a trailer is a per-URL error'),
     H('http_free', '_http_free', 'data: bytes, prefix_i: int', pre={'quick': ['len(data) <= 3 and 0 <= prefix_i <= 3'], 'thorough': ['len(data) <= 5 and 0 <= prefix_i <= 3']},
       parts=[{'tag': 'p%d' % i, 'fix': {'prefix_i': str(i)}} for i in range(4)], timeout={'quick': 75, 'thorough': 900}, kind='hunt',
       samples=[(b'abc', 0), (b'5\r\n', 2)], funcs=['wpull/protocol/http/stream.py:Stream.read_response'],
@@ -275,7 +302,7 @@ HARNESSES = [
       timeout={'quick': 250, 'thorough': 1800}, samples=[(0, 0, 0, 1, 0, False), (14, 15, 0, 2, 1, False), (8, 0, 0, 1, 2, False)], need=['remote-error', 'ok'],
       funcs=['wpull/protocol/ftp/stream.py:ControlStream.read_reply', 'wpull/protocol/ftp/request.py:Reply.parse', 'wpull/protocol/ftp/command.py:Commander.login',
              'wpull/protocol/ftp/command.py:Commander.passive_mode', 'wpull/protocol/ftp/command.py:Commander.size', 'wpull/protocol/ftp/util.py:parse_address'],
-      doc='sequences of 1-3 reply lines from a pool of 21 malformed / odd shapes, optionally cut off, fed to welcome / login / PASV / SIZE / '
+      doc='sequences of 1-3 reply lines from a pool of 24 malformed / odd shapes (bare CR inside a line, a line over 64 KiB ...), optionally cut off, fed to welcome / login / PASV / SIZE / '
           'REST / RETR handling: success or a per-URL error kind'),
     H('ftp_listing', '_ftp_listing', 't1: int, t2: int, t3: int, t4: int, ntok: int, t5: int, t6: int, nlines: int, mlsd: bool',
       pre=[' and '.join('0 <= t%d < %d' % (i, len(_TOK)) for i in range(1, 7)) + ' and 1 <= ntok <= 4 and 1 <= nlines <= 2'],
@@ -291,20 +318,22 @@ HARNESSES = [
              'wpull/protocol/ftp/ls/date.py:parse_datetime', 'wpull/protocol/ftp/util.py:parse_machine_listing'],
       doc='directory listings assembled from a pool of 45 hostile tokens (dates with 1-4 digit years, impossible days / times, grouping characters ...) (1-3 tokens per line in the quick tier), LIST and MLSD: '
           'Session.download_listing post-processing succeeds or raises a per-URL error kind'),
-    H('ftp_processor_faults', '_ftp_processor_faults', 'where_i: int, err_i: int, url_i: int, lt: int',
-      pre=['0 <= where_i <= 4 and 0 <= err_i <= 4 and 0 <= url_i <= 2 and 0 <= lt <= 2'], timeout={'quick': 250, 'thorough': 600},
-      samples=[(4, 0, 0, 1), (0, 0, 0, 1), (1, 1, 0, 0)], need=['faulted', 'clean'],
+    H('ftp_processor_faults', '_ftp_processor_faults', 'where_i: int, err_i: int, url_i: int, lt: int, preserve: bool, nth: int',
+      pre=['0 <= where_i <= 4 and 0 <= err_i <= 4 and 0 <= url_i <= 2 and 0 <= lt <= 2 and 1 <= nth <= 2'],
+      parts=[{'tag': 'plain', 'fix': {'preserve': 'False', 'nth': '1'}}, {'tag': 'preserve_permissions', 'fix': {'preserve': 'True'}, 'pre': ['where_i == 1 or where_i == 3 or where_i == 4']}],
+      timeout={'quick': 250, 'thorough': 600},
+      samples=[(4, 0, 0, 1, False, 1), (0, 0, 0, 1, False, 1), (1, 1, 0, 0, False, 1), (1, 0, 0, 1, True, 1)], need=['faulted', 'clean'],
       funcs=['wpull/processor/ftp.py:FTPProcessorSession.process', 'wpull/processor/ftp.py:FTPProcessorSession._fetch',
              'wpull/processor/ftp.py:FTPProcessorSession._prepare_request_file_vs_dir', 'wpull/processor/ftp.py:FTPProcessorSession._fetch_parent_path'],
       doc='a per-URL error (network, protocol, certificate, FTP server, refused) raised by the FTP client at any stage - including the '
           'helper listing of the parent directory - never leaves FTPProcessorSession.process: the item ends processed'),
     H('documents', '_documents', 'doc_i: int, kind: int, enc_i: int',
-      pre=['0 <= doc_i < %d and 0 <= kind <= 3 and 0 <= enc_i <= 5' % len(_DOCS)],
+      pre=['0 <= doc_i < %d and 0 <= kind <= 3 and 0 <= enc_i <= 11' % len(_DOCS)],
       parts=[{'tag': 'k%d' % k, 'fix': {'kind': str(k)}} for k in range(4)], timeout={'quick': 250, 'thorough': 900},
       samples=[(1, 0, 0), (9, 1, 1), (11, 2, 0), (2, 3, 4)], need=['ok'],
       funcs=['wpull/protocol/http/robots.py:RobotsTxtChecker._read_content', 'wpull/scraper/css.py:CSSScraper.scrape', 'wpull/scraper/javascript.py:JavaScriptScraper.scrape',
              'wpull/scraper/base.py:DemuxDocumentScraper.scrape_info', 'wpull/document/util.py:detect_response_encoding'],
-      doc='18 hostile robots.txt / CSS / JavaScript documents x 6 declared charsets (incl. utf-16 and an unknown codec) through robots.txt '
+      doc='18 hostile robots.txt / CSS / JavaScript documents x 12 declared charsets (incl. utf-16, an unknown codec and non-text codecs such as hex / zlib / base64) through robots.txt '
           'loading, CSSScraper, JavaScriptScraper and the demultiplexing scraper: success or a per-URL error kind'),
     H('web_processor_faults', '_web_processor_faults', 'e0: int, e1: int, stage: int', pre=['0 <= e0 <= 9 and 0 <= e1 <= 9 and stage == 0'],
       timeout={'quick': 250, 'thorough': 600}, samples=[(0, 0, 0), (7, 6, 0), (9, 1, 0)], need=['processed'],
